@@ -158,6 +158,11 @@ func (p Precompile) RegisterToken(
 	if p.assetsKeeper.IsStakingAsset(ctx, assetID) {
 		return nil, fmt.Errorf("asset %s already exists", assetID)
 	}
+	// reject what SetStakingAssetInfo would reject before the oracle registration is written,
+	// since a failure is reported as `false` without reverting.
+	if asset.Decimals > assetstypes.MaxDecimal {
+		return nil, fmt.Errorf("the decimal is greater than the MaxDecimal, decimal:%v, MaxDecimal:%v", asset.Decimals, assetstypes.MaxDecimal)
+	}
 
 	stakingAsset := &assetstypes.StakingAssetInfo{
 		AssetBasicInfo:     asset,
